@@ -295,6 +295,8 @@ def _get_or_make_region(
           line_offset = 100 * line_num/_DEFAULT_ROWS if line_num >= 0 else 100 + 100 * line_num/_DEFAULT_ROWS
         else:
           line_offset = 100 * line_num/_DEFAULT_COLS if line_num >= 0 else 100 + 100 * line_num/_DEFAULT_COLS
+        # lines beyond the first or last line are moved onto the root container
+        line_offset = min(max(line_offset, 0), 100)
 
     if line_offset is not None:
       if line_align == "center":
